@@ -420,6 +420,22 @@ class Evaluator:
                     out.append(_Cos(t.args[0]))
                 elif nm in ('cot', 'csc'):
                     out.append(_Sin(t.args[0]))
+        # zeros of t ^ n (n a positive integer), of abs(t) and of -t are the zeros of t: these do not change sign there,
+        # so look at t itself (a kink of (x ^ 2) ^ (1/2) is found as the sign change of x)
+        for i, t in enumerate(out):
+            while True:
+                if isinstance(t, (_Cos, _Sin)):
+                    break
+                if t.ty == OP and t.op == '^' and len(t.args) == 2 and t.args[1].ty == CONST and \
+                        isinstance(t.args[1].val, int) and t.args[1].val >= 1:
+                    t = t.args[0]
+                elif t.ty == OP and len(t.args) == 1:
+                    t = t.args[0]
+                elif t.ty == FUN and len(t.args) == 1 and str(t.func_name) == 'abs':
+                    t = t.args[0]
+                else:
+                    break
+            out[i] = t
         res = []
         seen = set()
         for t in out:
@@ -572,6 +588,15 @@ class Evaluator:
             self.depth += 1
             try:
                 v, err = mp.quad(g, [a] + pts + [b], error=True)
+                # an improper integral only counts when the integrand visibly decays faster than 1/x: quadrature of a
+                # divergent integral returns a huge number whose *relative* error estimate looks fine
+                for z in (a, b):
+                    if not mp.isfinite(z) and mp.isfinite(v):
+                        sgn = 1 if z > 0 else -1
+                        t1 = abs(g(sgn * mpf(10) ** 9)) * mpf(10) ** 9
+                        t2 = abs(g(sgn * mpf(10) ** 15)) * mpf(10) ** 15
+                        if t2 > t1 * (1 + mpf(10) ** (-6)) or t2 > mpf(10) ** (-3) * (1 + min(abs(v), mpf(10) ** 6)):
+                            raise Inconc('improper-integrand-does-not-decay')
             finally:
                 self.depth -= 1
                 if old is None:
